@@ -145,6 +145,39 @@ class KwOnlyNew(LookupError):
     super().__init__()
 
 
+class CodeErr(Exception):
+  """__new__ refuses what ends up in `args` (with something other than a TypeError)"""
+  def __new__(cls, code):
+    self = super().__new__(cls, 'code %d' % int(code))
+    self.code = int(code)
+    return self
+
+  def __init__(self, code):
+    pass
+
+
+class TaggedBase(Exception):
+  """cannot be subclassed without a class keyword"""
+  def __init_subclass__(cls, tag, **kw):
+    super().__init_subclass__(**kw)
+    cls.tag = tag
+
+
+class Tagged(TaggedBase, tag='x'):
+  pass
+
+
+class ArgsProp(Exception):
+  """`args` is a read-only property"""
+  def __init__(self, code):
+    super().__init__(code)
+    self.code = code
+
+  @property
+  def args(self):
+    return (self.code,)
+
+
 def make_job_error():
   """A class made by a factory: every call gives a new class with the same module and qualified name."""
   class JobError(RuntimeError):
@@ -158,7 +191,7 @@ class _FactoryMade:
   __name__ = 'FactoryMade'
 
 
-USER = [(_FactoryMade, ('nightly', 3)), (FalsyAttrs, ('falsy',)), (StopZero, (0,)), (QuotaError, ('disk', 3)), (KwOnlyNew, {'key': 'k1'}), (DeviceError, ('sda', 5, 'I/O error')), (BatchError, ([ValueError('a'), KeyError('b')], 'load', 3)),
+USER = [(CodeErr, (5,)), (Tagged, ('boom',)), (ArgsProp, (7,)), (_FactoryMade, ('nightly', 3)), (FalsyAttrs, ('falsy',)), (StopZero, (0,)), (QuotaError, ('disk', 3)), (KwOnlyNew, {'key': 'k1'}), (DeviceError, ('sda', 5, 'I/O error')), (BatchError, ([ValueError('a'), KeyError('b')], 'load', 3)),
         (NeedsArgs, (1, 'two')), (NeedsNewArgs, (404, 'nf')), (Slotted, ([1, 2],)), (CustomStr, ('m', {'k': 1})),
         (WithProperty, (21,))]
 
@@ -275,8 +308,38 @@ LEVEL_NAMES = ['leaf', 'mid', 'top', 'l4', 'l5', 'l6', 'l7', 'l8', 'l9']
 PARAMS = ['z', 'y', 'x', 'w4', 'w5', 'w6', 'w7', 'w8', 'w9']
 
 
+# a StopIteration raised by a configurable that runs inside `__next__` of an iterator consumed by `yield from`: the
+# interpreter reads the value slot of what arrives directly - run in a process of its own (a crash is an outcome)
+YIELD_FROM_CASES = [{'dom': 'exc', 'kind': 'yieldfrom', 'sub': sub, 'scope': sc, 'depth': d}
+                    for sub in (False, True) for sc in ('', 'sc') for d in (1, 2)]
+
+
+def run_yieldfrom_case(case):
+  import os
+  import subprocess
+  import sys
+  code = (
+      'import gin\n'
+      'class MyStop(StopIteration):\n  pass\n'
+      f'EXC = {"MyStop" if case["sub"] else "StopIteration"}\n'
+      '@gin.configurable\ndef nxt():\n  raise EXC(5)\n'
+      '@gin.configurable\ndef outer():\n  return nxt()\n'
+      'class It:\n  def __iter__(self):\n    return self\n'
+      f'  def __next__(self):\n    return {"outer" if case["depth"] == 2 else "nxt"}()\n'
+      'def g():\n  x = yield from It()\n  return x\n'
+      'import contextlib\n'
+      f'with (gin.config_scope({case["scope"]!r}) if {case["scope"]!r} else contextlib.nullcontext()):\n'
+      '  try:\n    next(g())\n    print("no StopIteration")\n'
+      '  except StopIteration as e:\n    print("value", e.value)\n')
+  env = dict(os.environ, PYTHONPATH=os.environ.get('GIN_REPO', '/repo'))
+  r = subprocess.run([sys.executable, '-c', code], capture_output=True, text=True, env=env, timeout=120)
+  return {'facts': {'rc': r.returncode, 'out': r.stdout.strip()[:200], 'err': r.stderr.strip()[-200:]}, 'orig': {},
+          'is_exception': True}
+
+
 def gen_cases(rng, tier, boost=1):
   yield from MISSING_CASES
+  yield from YIELD_FROM_CASES
   base = all_cases()
   for c in base:
     for depth in ([1, 3] if tier == 'quick' else [1, 2, 3]):
@@ -348,6 +411,8 @@ def public_attrs(exc, gin, names=None):
 
 
 def run_impl(case):
+  if case.get('kind') == 'yieldfrom':
+    return run_yieldfrom_case(case)
   if case.get('kind') == 'missing':
     return run_missing_case(case)
   gin = core.fresh_gin()
@@ -454,23 +519,32 @@ def _scope_of(case, k):
 
 
 def class_facts(exc):
-  """facts about Python, not about Gin: can an (uninitialised) instance of a subclass of the raised class be made"""
+  """facts about Python, not about Gin: can an (uninitialised) instance of a subclass of the raised class be made and
+  given the original's args — if any step fails, in whatever way, no proxy can exist and the original object travels"""
   cls = type(exc)
+  facts = {'name': cls.__name__, 'module': cls.__module__, 'bases': [b.__name__ for b in cls.__mro__],
+           'newAcceptsArgs': False, 'bareNewWorks': False}
   try:
-    sub = type(cls)('P', (cls,), {'__init__': lambda self, *a, **k: None}) if type(cls) is type else None
+    sub = type(cls)('P', (cls,), {'__init__': lambda self, *a, **k: None})
   except Exception:  # pylint: disable=broad-except
-    sub = None
-  if sub is None:
-    return None
-  facts = {'name': cls.__name__, 'module': cls.__module__, 'bases': [b.__name__ for b in cls.__mro__]}
+    return facts
+  made = None
   for key, make in (('newAcceptsArgs', lambda: sub.__new__(sub, *exc.args)), ('bareNewWorks', lambda: BaseException.__new__(sub))):
     try:
-      make()
+      obj = make()
       facts[key] = True
+      made = made if made is not None else obj
     except TypeError:
       facts[key] = False
     except Exception:  # pylint: disable=broad-except
-      return None
+      return dict(facts, newAcceptsArgs=False, bareNewWorks=False)
+  if made is not None:
+    if made is exc or not isinstance(made, sub):
+      return None     # __new__ hands out an existing object: outside the model
+    try:
+      made.args = exc.args
+    except Exception:  # pylint: disable=broad-except
+      return dict(facts, newAcceptsArgs=False, bareNewWorks=False)
   return facts
 
 
@@ -540,6 +614,8 @@ def _describe(e, exc, cls, gin, orig_str, scope='sc'):
 
 
 def to_driver(case, impl):
+  if case.get('kind') == 'yieldfrom':
+    return {'dom': 'exc', 'orig': [], 'is_exception': True}
   d = {'dom': 'exc', 'orig': [[k, canon(v)] for k, v in sorted(impl['orig'].items())],
        'is_exception': impl['is_exception']}
   if impl.get('cls_facts') and impl.get('orig_str') is not None:
@@ -552,6 +628,8 @@ def to_driver(case, impl):
 def compare(case, impl, model):
   if 'attrs' not in model:
     return f'driver error: {model}'
+  if case.get('kind') == 'yieldfrom':
+    return None
   if case.get('kind') == 'missing':
     # the text of the TypeError for parameters nobody supplied: Python's own message, the hint, the configurable
     f = impl['facts']
@@ -587,6 +665,12 @@ def compare(case, impl, model):
 
 
 def oracle(case, impl):
+  if case.get('kind') == 'yieldfrom':
+    f = impl['facts']
+    if f['rc'] != 0 or f['out'] != 'value 5':
+      return (f'StopIteration(5) raised by a configurable inside __next__ under `yield from` ({case}): process exit {f["rc"]} '
+              f'(negative = killed by a signal), output {f["out"]!r} {f["err"]!r}; without Gin the generator returns 5')
+    return None
   if case.get('kind') == 'missing':
     f = impl['facts']
     if f.get('raised') != 'TypeError':
@@ -603,9 +687,12 @@ def oracle(case, impl):
     return None
   if impl.get('replaced_by'):
     return f'{case["cls"]} was replaced by {impl["replaced_by"]}'
-  if impl.get('same_object') and not impl.get('ctor_accepts_args'):
-    # a class that cannot even be re-created from its own `args` (constructor signature differs): the
-    # original exception itself arrives, nothing changed and nothing added
+  facts = impl.get('cls_facts')
+  unbuildable = facts is None or not (facts.get('newAcceptsArgs') or facts.get('bareNewWorks'))
+  if impl.get('same_object') and (not impl.get('ctor_accepts_args') or unbuildable):
+    # a class that cannot even be re-created from its own `args` (constructor signature differs), or of which no
+    # subclass instance can be made at all (it cannot be subclassed, `args` cannot be set): the original exception
+    # itself arrives, nothing changed and nothing added
     return None
   if not impl.get('caught_by_original_clause') or not impl.get('isinstance') or not impl.get('subclass_of_original'):
     return f'{case["cls"]}: not catchable as the original class (got {impl.get("type_name")})'
@@ -633,12 +720,15 @@ def oracle(case, impl):
 
 
 def nontrivial(case, impl):
-  if case.get('kind') == 'missing':
+  if case.get('kind') in ('missing', 'yieldfrom'):
     return True
   return len([k for k in impl.get('orig', {}) if k != 'args']) >= 1 or case['user']
 
 
 def tally(stats, case, impl):
+  if case.get('kind') == 'yieldfrom':
+    stats['yield_from'] = stats.get('yield_from', 0) + 1
+    return
   if case.get('kind') == 'missing':
     stats['missing_positional'] = stats.get('missing_positional', 0) + 1
     return
